@@ -35,6 +35,10 @@ def gen_world(rng, min_dims=3, max_dims=5):
         i, j = rng.sample(strdims, 2)
         dims[i]["items"][-1] = "dup"
         dims[j]["items"][0] = "dup"
+    # item order is not always ascending (labels, not positions, identify entries); time stays ascending for the stock models
+    for d in dims:
+        if d["letter"] != "t" and len(d["items"]) >= 2 and rng.chance(0.35):
+            d["items"] = rng.shuffled(d["items"])
     nbase = len(dims)
     for i in range(nbase):
         d = dims[i]
@@ -44,6 +48,14 @@ def gen_world(rng, min_dims=3, max_dims=5):
             if rng.chance(0.5):
                 sub = [x for x in d["items"] if x in sub]
             dims.append({"letter": d["letter"].upper(), "name": d["name"] + "Sub", "items": sub, "dtype": d["dtype"], "of": i})
+    # F1: a "foreign twin": same letter as a universe dimension, other name and item count (an array from another model)
+    if rng.chance(0.3):
+        i = rng.randint(1, nbase - 1) if nbase > 1 else 0
+        d = dims[i]
+        k = rng.choice([1, 1, len(d["items"]) + 1])
+        items = (d["items"] + ["extra_item" if d["dtype"] != "int" else 99999])[:k] if k > len(d["items"]) else d["items"][:k]
+        if items != d["items"]:
+            dims.append({"letter": d["letter"], "name": d["name"] + "Twin", "items": items, "dtype": d["dtype"], "of": None, "twin": True})
     return {"dims": dims}
 
 
@@ -176,7 +188,9 @@ def build_key(spec, arr, D, OF):
             elif v[0] == "subset":
                 key[k] = v[2]
             else:
-                key[k] = [d.items[i] for i in v[1]]
+                lst = [d.items[i] for i in v[1]]
+                lf = spec.get("list_form", "list")
+                key[k] = lst if lf == "list" else (tuple(lst) if lf == "tuple" else np.array(lst, dtype=object if any(isinstance(x, str) for x in lst) else None))
         info.key = key
     f1 = spec.get("f1")
     if f1 == "unknown_item":
@@ -228,7 +242,7 @@ def region_letters(dims, sel):
             w = s[2]
             out.append((w.letter, list(w.items)))
         else:
-            return None
+            out.append((d[0], [d[2][i] for i in s[1]]))
     return out
 
 
